@@ -227,7 +227,11 @@ def known_pattern(ops):
     gaps, sets_with_gap = set(), False
     for op in ops:
         if op[0] == 'rename':
-            if op[1] in defined and op[2] not in defined:
+            if op[2] == '*':
+                # only edges, gaps and groups may give their identifier up; for the others the rename fails
+                if defined.get(op[1]) in ('E', 'G', 'O', 'U'):
+                    defined.pop(op[1])
+            elif op[1] in defined and op[2] not in defined:
                 defined[op[2]] = defined.pop(op[1])
             continue
         if op[0] != 'add':
